@@ -376,6 +376,10 @@ int sqfs_xattr_reader_seek_kv(sqfs_xattr_reader_t *xr,
 	sqfs_u32 offset = desc->xattr & 0xFFFF;
 	sqfs_u64 block = xr->xattr_start + (desc->xattr >> 16);
 
+	/* no xattr table has been loaded */
+	if (xr->kvrd == NULL)
+		return SQFS_ERROR_OUT_OF_BOUNDS;
+
 	return sqfs_meta_reader_seek(xr->kvrd, block, offset);
 }
 
@@ -424,6 +428,10 @@ int sqfs_xattr_reader_read_all(sqfs_xattr_reader_t *xr, sqfs_u32 idx,
 	*out = NULL;
 	if (idx == 0xFFFFFFFF)
 		return 0;
+
+	/* without a table, index 0 is tolerated and stands for "nothing" */
+	if (xr->kvrd == NULL || xr->idrd == NULL)
+		return idx == 0 ? 0 : SQFS_ERROR_OUT_OF_BOUNDS;
 
 	ret = sqfs_xattr_reader_get_desc(xr, idx, &desc);
 	if (ret)
